@@ -133,7 +133,25 @@ def run(m, rep, tier):
     check_map_adapter(m, k1, k2)
     f = m.ifn('cstl_hash_clear_visit') or _hash_clear_adapter(m)
     if f is None:
-        k1.undecided('hash-clear-adapter', 'not found')
+        # no adapter: clear walks the chains itself and calls the callback directly
+        from . import c04
+        hf = m.ifn('cstl_hash_clear')
+        calls = [c for c in hf.all_insts() if c.op == 'call' and c.callee is None and c.x.get('cv') == '$1'] if hf is not None else []
+        if not calls:
+            k1.undecided('hash-clear-adapter', 'not found, and cstl_hash_clear does not call the callback itself')
+        else:
+            bad = []
+            for c in calls:
+                node = c04.handed_node(hf, c.o[0]) if c.o else None
+                if node is None:
+                    bad.append('the callback at %s is not handed an element computed from a chain node' % c.loc())
+                else:
+                    bad += ['the node is accessed at %s after its element was handed to the callback at %s' % (b_.loc(), c.loc())
+                            for b_ in c04.no_touch_after_handoff(hf, c, node)]
+            if bad:
+                k1.violation('hash-clear-adapter', '; '.join(sorted(set(bad))[:2]), floc(m, hf), {})
+            else:
+                k1.ok('hash-clear-adapter', 'no adapter: clear calls the callback itself, %d site(s), the node is not touched afterwards' % len(calls), floc(m, hf))
     else:
         calls = [c for c in f.all_insts() if c.op == 'call' and c.callee is None and c.x.get('fty') == XTOR_FTY]
         bad = []
@@ -426,7 +444,8 @@ def check_restored(m, k3):
             if g is None or _reaches_call(m, g, 'cstl_bintree_clear', 3):
                 continue
             hands = [k for k, o in enumerate(c.o) if isinstance(o, str) and resolve_addr(pf, o).root == '$0']
-            if hands and any(s2.op == 'store' and resolve_addr(g, s2.o[1]).root in ['$%d' % k for k in hands] for s2 in g.all_insts()):
+            from .util import writes_through_param
+            if hands and any(writes_through_param(m, g, k) for k in hands):
                 stores.append(c)
         if ok and not stores:
             k3.ok(wrapper, 'delegates to cstl_bintree_clear and changes nothing else in the container')
